@@ -6,7 +6,7 @@ as XML, and from the regex matches computed for the case):
 
   `<id> cfg=(cfg account (operator?) o2n|n2o (rules RULE...)) stmts=(STMT...) caps=(...) fund=(FUND?)`
 
-  STMT = `(stmt (bals (bal OPBD|CLBD AMT C|D)...) (entries NTRY...))`;   AMT = `(neg mant scale ccy)`
+  STMT = `(stmt (bals (bal OPBD|CLBD|<other code> AMT C|D)...) (entries NTRY...))`;   AMT = `(neg mant scale ccy)`
   NTRY = `(ntry AMT C|D DATE (DATE?) ((dom fam sub)?) (chgs CHG...) (dtls DTL...) info)`
   CHG  = `(AMT C|D 0|1)`
   DTL  = `(dtl (ref?) AMT C|D ((AMT ((src tgt neg mant scale)?))?) (chgs CHG...) (info (key value)...))`
@@ -89,6 +89,7 @@ def decBal : Sexp → Option CamtBalance
     let code ← match code with
       | .atom "OPBD" => some BalanceCode.opening
       | .atom "CLBD" => some BalanceCode.closing
+      | .atom _ => some BalanceCode.other
       | _ => none
     let a ← decAmt a; let cd ← decCd cd
     pure ⟨code, a, cd⟩
